@@ -196,8 +196,36 @@ def _violation(prop, desc, label, fkey, detail, values=None, lhs=None, rhs=None,
                 lhs=lhs, rhs=rhs, vkind=kind)
 
 
+class CaseTimeout(BaseException):
+    """wall-clock budget of one case exhausted inside Python-level code (code generation, sympy)."""
+
+
+def _alarm(signum, frame):
+    raise CaseTimeout()
+
+
 def prove_case(mod, desc, opts):
-    """Decide one case.  Never raises; problems become status 'inconclusive'/'error'."""
+    """Decide one case.  Never raises; problems become status 'inconclusive'/'error'/'timeout'."""
+    import signal
+    budget = float(desc.get('budget_s') or opts.get('case_budget_s', 0) or 0)
+    if not budget or not hasattr(signal, 'setitimer'):
+        return _prove_case(mod, desc, opts)
+    old = signal.signal(signal.SIGALRM, _alarm)
+    signal.setitimer(signal.ITIMER_REAL, budget)
+    try:
+        return _prove_case(mod, desc, opts)
+    except CaseTimeout:
+        res = _new_result(desc)
+        res['status'] = 'timeout'
+        res['wall_s'] = budget
+        res['notes'].append(f'case budget of {budget:.0f}s exhausted (code generation / symbolic simplification); not explored')
+        return res
+    finally:
+        signal.setitimer(signal.ITIMER_REAL, 0)
+        signal.signal(signal.SIGALRM, old)
+
+
+def _prove_case(mod, desc, opts):
     res = _new_result(desc)
     t0 = time.time()
     rlimit = opts.get('rlimit', 50_000_000)
